@@ -3,6 +3,7 @@ package spec
 import (
 	"fmt"
 	"sort"
+	"strings"
 )
 
 // rnd is a splitmix64 PRNG private to the spec generator.
@@ -390,6 +391,30 @@ func RandomConfig(p *Program, seed uint64) Config {
 	c.ComputedFields = pickKeys(2 + r.n(3))
 	c.RequiredFields = pickKeys(2 + r.n(2))
 	c.SensitiveFields = pickKeys(2 + r.n(2))
+	// a parent path together with a path below it, in every flag list
+	var deep []string
+	for _, pk := range paths {
+		if strings.Count(pk, ".") >= 2 {
+			deep = append(deep, pk)
+		}
+	}
+	addPair := func(l []string) []string {
+		if len(deep) == 0 {
+			return l
+		}
+		child := deep[r.n(len(deep))]
+		parent := child[:strings.LastIndex(child, ".")]
+		l = append(l, parent, child)
+		sort.Strings(l)
+		out := l[:0]
+		for i, x := range l {
+			if i == 0 || x != l[i-1] {
+				out = append(out, x)
+			}
+		}
+		return out
+	}
+	c.ComputedFields, c.RequiredFields, c.SensitiveFields = addPair(c.ComputedFields), addPair(c.RequiredFields), addPair(c.SensitiveFields)
 	c.Sort = r.p(1, 2)
 	c.UseStateForUnknownByDefault = r.p(1, 2)
 	c.TimeType, c.DurationType, c.DurationCustomType = SimTimeType, SimDurationType, DurationCastName
